@@ -123,9 +123,11 @@ class FileManager:
 
         try:
             FileManager.file_interfaces[ext].save(temp_file, data)
+
+            # move temp file
+            os.replace(temp_file, filename)
         except KeyError:
             raise AssertionError("No config file processor available for file type {}".format(ext))
-
-        # move temp file
-        os.replace(temp_file, filename)
-        FileManager.is_busy = False
+        finally:
+            # always clear the flag. otherwise one failed write blocks all writers forever
+            FileManager.is_busy = False
